@@ -33,7 +33,13 @@ def _apply(ps, env, o):
     elif k == "worker":
         env[o["name"]] = ps.Worker(name=o["name"])
     elif k == "cumulative":
-        env[o["name"]] = ps.CumulativeWorker(name=o["name"], size=o["size"])
+        kw = {}
+        if o.get("cost2"):
+            c2 = o["cost2"]
+            kw["cost"] = ps.ConstantFunction(value=c2 // 2 if c2 % 2 == 0 else c2 / 2)
+        if o.get("productivity", 1) != 1:
+            kw["productivity"] = o["productivity"]
+        env[o["name"]] = ps.CumulativeWorker(name=o["name"], size=o["size"], **kw)
     elif k == "select":
         env[o["name"]] = ps.SelectWorkers(name=o["name"], list_of_workers=[env[w] for w in o["workers"]],
                                           nb_workers_to_select=o["n"])
@@ -49,6 +55,8 @@ def _apply(ps, env, o):
         kw = dict(name=o["name"], optional=o.get("optional", False))
         if cls == "TaskStartAt":
             c = ps.TaskStartAt(task=env[o["task"]], value=0, **kw)
+        elif cls == "Not":
+            c = ps.Not(constraint=env["con:" + o["operand"]], **kw)
         elif cls == "OptionalTaskForceSchedule":
             c = ps.OptionalTaskForceSchedule(task=env[o["task"]], to_be_scheduled=True, **kw)
         elif cls == "OptionalTaskConditionSchedule":
